@@ -1256,9 +1256,13 @@ func (c *Ctx) scanCycleGuard(d CycleGuardDirective) ([]*Obligation, string) {
 	nrec, nguard := 0, 0
 	for _, name := range names {
 		fn := c.funcs[name]
-		if fn.Blocks == nil || fn.Name() != d.Method || fn.Signature.Recv() == nil {
+		if fn.Blocks == nil {
 			continue
 		}
+		// Method names either a method (the recursion is the interface call inside its
+		// implementations) or a plain function (the recursion is the static call back into it
+		// from whoever it hands the container to)
+		isImpl := fn.Name() == d.Method && fn.Signature.Recv() != nil
 		var rec []ssa.Instruction
 		var guards, marks []ssa.Instruction
 		for _, b := range fn.Blocks {
@@ -1268,10 +1272,13 @@ func (c *Ctx) scanCycleGuard(d CycleGuardDirective) ([]*Obligation, string) {
 					continue
 				}
 				cc := ci.Common()
-				if cc.IsInvoke() && cc.Method.Name() == d.Method {
+				if isImpl && cc.IsInvoke() && cc.Method.Name() == d.Method {
 					rec = append(rec, in)
 				}
 				if f := cc.StaticCallee(); f != nil {
+					if f.Name() == d.Method && f.Signature.Recv() == nil && f.Pkg == c.pkg {
+						rec = append(rec, in)
+					}
 					switch f.RelString(c.tpkg) {
 					case d.Guard:
 						guards = append(guards, in)
